@@ -16,6 +16,7 @@ from exabgp.protocol.resource import Resource
 
 class Protocol(Resource):
     NAME = 'protocol'
+    MAX = 0xFF  # the IP protocol / next header field is one octet
 
     ICMP = 0x01
     IGMP = 0x02
